@@ -68,7 +68,7 @@ def run(tier: str) -> int:
     try:
         for nm, (alpha, extra) in ALPHABETS.items():
             cfg = gen_cfg("cfg/BlockParser.tmpl", dict(Alphabet=alpha, MaxLen=L, NestLimit=NEST if nm != "extra" else 8, Extra="INVARIANT Emit"), nm)
-            jobs_tlc.append(("BlockParser", cfg, dict(workers=1, timeout=3000)))
+            jobs_tlc.append(("BlockParser", cfg, dict(workers=1, timeout=3000, extra=["-maxSetSize", "4000000"])))
             names.append(nm)
         live = gen_cfg("cfg/BlockParser.tmpl", dict(Alphabet='{"T","if","else","endif","for","endfor","case","when"}', MaxLen=4, NestLimit=2,
                                                     Extra="PROPERTY Terminates"), "live")
